@@ -496,7 +496,8 @@ class ObjectType(Type):
         self.__initialize__()
 
         if value is None:
-            return None
+            # (an optional parameter set to None never reaches the type validation)
+            raise ValueError("None is not an experimaestro configuration")
 
         if not isinstance(value, Config):
             raise ValueError(f"{value} is not an experimaestro type or task")
